@@ -32,12 +32,13 @@ type RootSpec struct {
 	Outside      string            `json:"outside"`
 	NoReplay     bool              `json:"no_replay"` // findings of this root cannot be replayed natively (stated)
 	MaxPaths     int               `json:"max_paths"`
-	Replace      map[string]string `json:"replace"`          // callee (full name) -> harness function with the same signature, engine side only
-	PreemptBound int               `json:"preemption_bound"` // max preemptive context switches per path (default 2)
-	NativeStress []int             `json:"native_stress"`    // [argIndex, value]: when a finding of this root is replayed natively, that argument (a repetition count) is raised so that the native scheduler gets many chances to take the interleaving
-	PreemptAt    []string          `json:"preempt_at"`       // restrict lock preemption points to Lock calls made from functions matching one of these substrings
-	PreemptLock  bool              `json:"preempt_at_lock"`  // every mutex acquisition is a preemption point
-	SkipGo       []string          `json:"skip_go"`          // goroutines (by function-name substring) that are not started in this root
+	Replace      map[string]string `json:"replace"`           // callee (full name) -> harness function with the same signature, engine side only
+	PreemptBound int               `json:"preemption_bound"`  // max preemptive context switches per path (default 2)
+	NativeStress []int             `json:"native_stress"`     // [argIndex, value]: when a finding of this root is replayed natively, that argument (a repetition count) is raised so that the native scheduler gets many chances to take the interleaving
+	PreemptAt    []string          `json:"preempt_at"`        // restrict lock preemption points to Lock calls made from functions matching one of these substrings
+	PreemptLock  bool              `json:"preempt_at_lock"`   // every mutex acquisition is a preemption point
+	TimersOff    bool              `json:"timers_never_fire"` // time.NewTimer never fires in this root (default: may fire at any moment)
+	SkipGo       []string          `json:"skip_go"`           // goroutines (by function-name substring) that are not started in this root
 }
 
 type PropSpec struct {
@@ -386,6 +387,7 @@ func newMachine(l *Loaded, spec *RootSpec, solverBin string) *Machine {
 		m.summarize[s] = true
 	}
 	m.skipGo = spec.SkipGo
+	m.timersOff = spec.TimersOff
 	m.preemptLock = spec.PreemptLock
 	m.preemptBound = spec.PreemptBound
 	m.preemptAt = spec.PreemptAt
@@ -664,6 +666,7 @@ func cmdRun(a []string) int {
 				}
 				spec.Replace = r.Replace
 				spec.PreemptLock = r.PreemptLock
+				spec.TimersOff = r.TimersOff
 				spec.PreemptBound = r.PreemptBound
 				spec.PreemptAt = r.PreemptAt
 			}
